@@ -87,6 +87,42 @@ Example C29_stdvar_nonvacuous :
   agg_stdvar (fun _ => false) (FFin (1 # 1)) [FInf false; FFin (4 # 1)] = FNaN.
 Proof. vm_compute. split; reflexivity. Qed.
 
+(* QUANTILE (promql/quantile.go) for 0 <= phi <= 1 and a non-empty group: the values are sorted
+   NaN-first ascending (a sorted permutation), the rank phi*(n-1) splits into an index
+   0 <= lo <= n-1 and a weight 0 <= w < 1, and the result is s[lo]*(1-w) + s[min(n-1,lo+1)]*w in
+   float arithmetic.  (phi = NaN, phi < 0, phi > 1 return NaN, -Inf, +Inf by definition of the
+   model's [quantile].) *)
+Theorem C29_quantile : forall ovf (q : Q) (vals : list fval),
+  vals <> [] -> (0 <= q)%Q -> (q <= 1)%Q ->
+  let s := sort_by heap_less vals in
+  let n := Z.of_nat (length vals) in
+  let rank := (q * inject_Z (n - 1))%Q in
+  let lo := qfloor rank in
+  let hi := Z.min (n - 1) (lo + 1) in
+  let w := (rank - inject_Z lo)%Q in
+  Permutation s vals /\ Sorted (fun a b => nf_le a b = true) s /\
+  0 <= lo <= n - 1 /\ lo <= hi <= n - 1 /\ (0 <= w)%Q /\ (w < 1)%Q /\
+  quantile ovf (FFin q) vals =
+    fadd ovf (fmul ovf (nth (Z.to_nat lo) s FNaN) (FFin (1 - w)))
+             (fmul ovf (nth (Z.to_nat hi) s FNaN) (FFin w)).
+Proof. exact quantile_spec. Qed.
+
+Example C29_quantile_nonvacuous :
+  quantile (fun _ => false) (FFin (3 # 4)) [FFin 5; FFin 1; FNaN; FFin 2; FFin 9] = FFin 5 /\
+  quantile (fun _ => false) (FFin (1 # 2)) [FFin 4; FFin 1] = FFin (5 # 2).
+Proof. vm_compute. split; reflexivity. Qed.
+
+(* FINDING (second).  Documented: "the value that ranks at number phi*N among the N values";
+   in particular quantile(1, v) is the maximum.  When the interpolation weight is 0 the formula
+   still multiplies the upper neighbour by 0, so an infinite neighbour yields Inf*0 = NaN:
+   quantile(1, {1, +Inf}) = NaN although the maximum is +Inf, and the quantile of a single
+   +Inf value is NaN for every phi in [0,1]. *)
+Theorem C29_quantile_rank_refuted : forall ovf,
+  quantile ovf (FFin 1) [FFin 1; FInf false] = FNaN /\
+  quantile ovf (FFin (1 # 2)) [FInf false] = FNaN /\
+  agg_max (FFin 1) [FInf false] = FInf false.
+Proof. exact quantile_zero_weight_inf. Qed.
+
 (* MAX / MIN (`group.floatValue < f || math.IsNaN(group.floatValue)`): the result is one of the
    group's values; as soon as one value is not NaN the result is not NaN and is an upper
    (lower) bound of every non-NaN value — NaN only if all values are NaN. *)
@@ -129,6 +165,14 @@ Example C29_topk_nonvacuous :
   map snd (k_group ABottomk 2 [([], FNaN); ([], FFin 1); ([], FNaN)]) = [FFin 1; FNaN].
 Proof. vm_compute. split; reflexivity. Qed.
 
+(* LIMITK of one group: min(k, |group|) series of the group (the engine takes the first k in
+   input order; the documentation allows any deterministic choice). *)
+Theorem C29_limitk : forall (k : Z) (members : list sample), 0 <= k ->
+  let out := k_group ALimitk k members in
+  Z.of_nat (length out) = Z.min k (Z.of_nat (length members)) /\
+  exists rest, members = out ++ rest.
+Proof. exact k_group_limitk. Qed.
+
 (* Vector matching, one-to-one and group_left, no fill modifiers (VectorBinop + resultMetric +
    the same-labelset check): whenever the engine returns a vector, it is exactly the
    documented one — one element per pair (l, r) with equal join signature, in left-hand order,
@@ -136,10 +180,11 @@ Proof. vm_compute. split; reflexivity. Qed.
    no duplicate label set, and the right-hand ("one") side has no two series with the same
    signature unless an operand is empty.
    PARTIAL with respect to the full statement "for every cardinality and fill modifier the
-   result is the documented vector or the documented error": group_right needs the statement
-   up to permutation (the engine iterates the right operand) and is false with unequal fill
-   values (C29_fill_group_right_refuted); fill modifiers and the converse direction (every
-   documented error condition raises that error) are checked by the correspondence only. *)
+   result is the documented vector or the documented error": group_right without fill is
+   C29_binop_group_right (up to permutation); with fill modifiers the statement is false for
+   group_right with unequal fill values (C29_fill_group_right_refuted) and otherwise checked by
+   the correspondence only; of the errors only the many-to-many one is characterised in both
+   directions (C29_binop_dup_error, C29_binop_dup_complete). *)
 Theorem C29_binop_pairs_partial : forall ovf op rb m lhs rhs out,
   m_card m <> OneToMany -> m_fill_l m = None -> m_fill_r m = None ->
   vector_binop ovf op rb m lhs rhs = RVec out ->
@@ -155,6 +200,36 @@ Theorem C29_binop_dup_error : forall ovf op rb m lhs rhs,
   vector_binop ovf op rb m lhs rhs = RErr ErrDupRight ->
   has_dup_labels (map (fun r : sample => signature (m_on m) (m_labels m) (fst r)) rhs) = true.
 Proof. exact vector_binop_dup_error. Qed.
+
+(* group_right without fill modifiers: a returned vector is a permutation of the documented
+   one (the engine iterates the right operand, the documentation fixes no order), without
+   duplicate label sets, and the left ("one") side has unique signatures unless an operand is
+   empty. *)
+Theorem C29_binop_group_right : forall ovf op rb m lhs rhs out,
+  m_card m = OneToMany -> m_fill_l m = None -> m_fill_r m = None ->
+  vector_binop ovf op rb m lhs rhs = RVec out ->
+  Permutation out (spec_binop_out ovf op rb m lhs rhs) /\
+  has_dup_labels (map fst out) = false /\
+  (lhs = [] \/ rhs = [] \/
+   NoDup (map (fun l : sample => signature (m_on m) (m_labels m) (fst l)) lhs)).
+Proof. exact vector_binop_group_right. Qed.
+
+Example C29_binop_group_right_nonvacuous :
+  let a := [97%N] in let b := [98%N] in
+  vector_binop (fun _ => false) OSub false (mkMatching OneToMany true [a] [] None None)
+     [([(a, [49%N])], FFin 10); ([(a, [50%N])], FFin 20)]
+     [([(a, [50%N]); (b, [49%N])], FFin 1); ([(a, [49%N]); (b, [49%N])], FFin 2); ([(a, [50%N]); (b, [50%N])], FFin 3)]
+  = RVec [([(a, [50%N]); (b, [49%N])], FFin 19); ([(a, [49%N]); (b, [49%N])], FFin 8);
+          ([(a, [50%N]); (b, [50%N])], FFin 17)].
+Proof. vm_compute. reflexivity. Qed.
+
+(* ... and the many-to-many error is complete: with both operands non-empty, two right-hand
+   series with the same signature always raise it (one-to-one and group_left). *)
+Theorem C29_binop_dup_complete : forall ovf op rb m lhs rhs,
+  m_card m <> OneToMany -> lhs <> [] -> rhs <> [] ->
+  has_dup_labels (map (fun r : sample => signature (m_on m) (m_labels m) (fst r)) rhs) = true ->
+  vector_binop ovf op rb m lhs rhs = RErr ErrDupRight.
+Proof. exact vector_binop_dup_complete. Qed.
 
 Example C29_binop_nonvacuous :
   let a := [97%N] in let b := [98%N] in
